@@ -1,6 +1,7 @@
 package props
 
 import (
+	"github.com/cosmos/cosmos-sdk/x/feegrant"
 	"fmt"
 	"math/big"
 	"os"
@@ -48,6 +49,13 @@ func balancesEqualSupply(t *rapid.T, v *VestWorld, when string, hist *[]string) 
 	if !all.IsEqual(sup) {
 		t.Fatalf("%s: sum of all balances %s != total supply %s\nhistory: %s", when, all, sup, jsonStr(*hist))
 	}
+}
+
+func occupiedClass() []string {
+	if len(occupiedModuleAddrs) > 0 {
+		return []string{"collector_address_occupied_by_a_fee_allowance"}
+	}
+	return nil
 }
 
 func TestC01(t *testing.T) {
@@ -227,6 +235,25 @@ func TestC01(t *testing.T) {
 			balancesEqualSupply(t, v, "after block", &hist)
 		}
 
+		// a user's fee allowance for the address of a collector module account that does not exist yet puts a
+		// base account there (x/feegrant creates the grantee's account): the distributor can neither pay nor
+		// sweep that collector from then on, what is due to it stays booked - and nothing of it is burned twice
+		occupiedModuleAddrs = map[string]bool{}
+		defer func() { occupiedModuleAddrs = map[string]bool{} }()
+		if rapid.IntRange(0, 3).Draw(t, "occupy") == 0 {
+			for _, a := range dcfg.Accounts() {
+				if a.Type == tModule && app.AccountKeeper.GetAccount(v.Ctx, ModuleAddr(a.Id)) == nil && rapid.Bool().Draw(t, "occupy_"+a.Id) {
+					m, err := feegrant.NewMsgGrantAllowance(&feegrant.BasicAllowance{}, KeyAcc(4).Addr, ModuleAddr(a.Id))
+					if err != nil {
+						panic(err)
+					}
+					if res := v.Run(m); res.OK() {
+						occupiedModuleAddrs[ModuleAddr(a.Id).String()] = true
+						note("fee allowance granted to the address of %s: a base account sits there now", a.Id)
+					}
+				}
+			}
+		}
 		var created []sdk.AccAddress
 		t.Repeat(map[string]func(*rapid.T){
 			"block": func(t *rapid.T) {
@@ -426,7 +453,7 @@ func TestC01(t *testing.T) {
 		if mcfg.Unordered() && mintBlocks > 0 {
 			cl = append(cl, "minters_listed_out_of_order")
 		}
-		st.Case(mintBlocks > 0 && burnBlocks > 0 && acceptedMsgs > 0, map[string]interface{}{"history": hist}, append(cl, v.TxClasses()...)...)
+		st.Case(mintBlocks > 0 && burnBlocks > 0 && acceptedMsgs > 0, map[string]interface{}{"history": hist}, append(append(cl, v.TxClasses()...), occupiedClass()...)...)
 		_ = strings.Repeat
 	})
 }
